@@ -84,9 +84,10 @@ def prepare(prop, log):
     return res
 
 
-def audit(prop, log):
-    """grep for forbidden constructs + #print axioms on every theorem of the property file."""
-    res = {"ok": True, "problems": [], "axioms": {}, "theorems": []}
+def audit(prop, log, tier="quick"):
+    """grep for forbidden constructs + #print axioms on every theorem of the property file; thorough tier: the compiled property module is replayed by `leanchecker`,
+    the toolchain's independent re-checker of .olean files."""
+    res = {"ok": True, "problems": [], "axioms": {}, "theorems": [], "leanchecker": "not run (quick tier)"}
     for dirpath, _, files in os.walk(os.path.join(LEAN, "RQ")):
         for f in files:
             if f.endswith(".lean"):
@@ -123,6 +124,12 @@ def audit(prop, log):
     if missing:
         res["ok"] = False
         res["problems"].append("no axiom report for %s" % missing)
+    if tier == "thorough":
+        rc, out = sh(["lake", "env", "leanchecker", "RQ.Props.%s" % prop], cwd=LEAN)
+        res["leanchecker"] = "RQ.Props.%s replayed: %s" % (prop, "accepted" if rc == 0 else "REJECTED")
+        if rc != 0:
+            res["ok"] = False
+            res["problems"].append("leanchecker rejects RQ.Props.%s: %s" % (prop, out[-400:]))
     return res
 
 
@@ -154,7 +161,7 @@ def main(argv):
     log = []
     mod = importlib.import_module("props." + prop.lower())
     prep = prepare(prop, log)
-    aud = audit(prop, log) if prep["build_ok"] else {"ok": False, "problems": ["not run: build failed"], "axioms": {}, "theorems": [t for t, _ in theorems_of(prop)[0]]}
+    aud = audit(prop, log, tier) if prep["build_ok"] else {"ok": False, "problems": ["not run: build failed"], "axioms": {}, "theorems": [t for t, _ in theorems_of(prop)[0]]}
 
     if replay_path:
         data = json.load(open(replay_path))
@@ -256,7 +263,7 @@ def main(argv):
             "correspondences": [c.as_dict() for c in ctx.corrs],
             "checker_cmd": "cd /verif/lean && lake build +RQ.Props.%s && lake env lean .audit/Audit_%s.lean   (then: ./check %s %s)" % (prop, prop, prop, tier),
             "trusted_base": [
-                "Lean 4 kernel (lake build of RQ.Props.%s); axioms used: %s" % (prop, sorted({a for v in aud["axioms"].values() for a in v})),
+                "Lean 4 kernel (lake build of RQ.Props.%s); axioms used: %s; leanchecker: %s" % (prop, sorted({a for v in aud["axioms"].values() for a in v}), aud.get("leanchecker", "not run")),
                 "harness/extract.py (tables regenerated from /repo on this run) and harness/instantiate.py (textual Rat->Float copy of the model)",
                 "correspondence harness: model (Float instance, compiled driver) vs the real rqalpha code on the same inputs",
             ] + list(getattr(mod, "TRUSTED", [])) + (
